@@ -316,7 +316,20 @@ pub fn i2_check(w: &mut World) {
             continue;
         }
         if c.polls == 0 {
-            v.push((vec!["C20"], format!("child {i} has never been polled although its combinator returned Pending")));
+            // a child that is never started can never be seen to resolve / yield: the owning family's own
+            // promise (resolve with / yield whatever its children produce) is broken as well
+            let mut props = vec!["C20"];
+            if let Some((p, _)) = c.parent {
+                if w.ch[p].fam != Fam::Co && w.ch[p].kind == Kind::Node {
+                    props.push(w.ch[p].fam.prop());
+                    // C20 excludes the sequential combinators: there the *current* input (the only one that is not
+                    // held back) left unpolled at a Pending return is a lost-progress defect of that combinator
+                    if matches!(w.ch[p].fam, Fam::Chain | Fam::WaitF | Fam::WaitS) {
+                        props[0] = "C01";
+                    }
+                }
+            }
+            v.push((props, format!("child {i} has never been polled although its combinator returned Pending")));
         } else if !matches!(c.last, Last::Pending | Last::Done) {
             v.push((vec!["C01"], format!("combinator returned Pending while child {i} is left at {:?} (it can make progress that no wake-up will trigger)", c.last)));
         }
